@@ -589,14 +589,14 @@ func fieldName(ptrT types.Type, idx int) string {
 		t = p.Elem().Underlying()
 	}
 	if s, ok := t.(*types.Struct); ok && idx < s.NumFields() {
-		return s.Field(idx).Name()
+		return canonFieldName(s.Field(idx))
 	}
 	return fmt.Sprintf("f%d", idx)
 }
 
 func fieldNameStruct(t types.Type, idx int) string {
 	if s, ok := t.Underlying().(*types.Struct); ok && idx < s.NumFields() {
-		return s.Field(idx).Name()
+		return canonFieldName(s.Field(idx))
 	}
 	return fmt.Sprintf("f%d", idx)
 }
